@@ -75,18 +75,26 @@ func (g nbGroup) Consume() int64 {
 	return g.ConsumerGroup.Consume()
 }
 
-// faultyPartition: the follower's log append can be made to fail once (fault step!ferr = what ReplicaLog
-// answers when queue.Put fails: (-1, err), nothing stored). Everything else is the real partition.
+// faultyPartition marks the partitions built by this harness. The follower's log append can be made to fail once
+// (fault step!ferr): the failure is injected BELOW the partition, in the queue's Put, so that what the follower
+// answers for a failed append is decided by the real partition.ReplicaLog.
 type faultyPartition struct{ replica.Partition }
 
 var stepping *world // the world whose replication step is running (faults are armed per step)
 
-func (p faultyPartition) ReplicaLog(idx int64, msg []byte) (int64, error) {
+// putFailLog / putFailQueue: the follower's log whose Put fails once while the fault is armed.
+type putFailLog struct{ nbLog }
+
+func (l putFailLog) Queue() queue.Queue { return putFailQueue{l.nbLog.Queue()} }
+
+type putFailQueue struct{ queue.Queue }
+
+func (q putFailQueue) Put(msg []byte) error {
 	if w := stepping; w != nil && w.armed == "ferr" {
 		w.armed, w.fired = "", true
-		return -1, errors.New("injected: follower log append failed")
+		return errors.New("injected: follower log append failed")
 	}
-	return p.Partition.ReplicaLog(idx, msg)
+	return q.Queue.Put(msg)
 }
 
 func inner(p replica.Partition) replica.Partition {
@@ -99,7 +107,11 @@ func inner(p replica.Partition) replica.Partition {
 func installPartitionWrapper() {
 	replica.NewPartitionFn = func(ctx context.Context, shard tsdb.Shard, family tsdb.DataFamily, cur models.NodeID,
 		log queue.FanOutQueue, cliFct rpc.ClientStreamFactory, stateMgr storage.StateManager) replica.Partition {
-		return faultyPartition{replica.VerifNoLoop(replica.NewPartition(ctx, shard, quietFamily{family}, cur, nbLog{log}, cliFct, stateMgr))}
+		var l queue.FanOutQueue = nbLog{log}
+		if cur == followerID {
+			l = putFailLog{nbLog{log}}
+		}
+		return faultyPartition{replica.VerifNoLoop(replica.NewPartition(ctx, shard, quietFamily{family}, cur, l, cliFct, stateMgr))}
 	}
 }
 
